@@ -52,7 +52,8 @@ enum Act {
     SetTrusted,
     RemoveTrusted,
     /// token: 0 T1, 1 T2, 2 unknown id; gas: 0 = 1 unit, 1 = more than the sender has, 2 = zero, 3 = negative
-    Out { token: u8, sender: usize, amt: Amt, trusted_dest: bool, data: bool, gas: u8, auth: bool },
+    /// gas_tok: which token pays the gas: 2 = the gas token, 1 = T2, 0 = T1 (aliasing with the transferred token)
+    Out { token: u8, sender: usize, amt: Amt, trusted_dest: bool, data: bool, gas: u8, auth: bool, gas_tok: u8 },
     /// recipient: 0 = U2, 1 = app with data
     In { token: u8, recipient: u8, amt: Amt },
     Advance(u32),
@@ -130,17 +131,23 @@ impl Scenario for C05 {
             for sender in 0..2usize {
                 for amt in amts {
                     if token == 2 && amt != Amt::One { continue; }
-                    v.push(Act::Out { token, sender, amt, trusted_dest: true, data: false, gas: 0, auth: true });
+                    v.push(Act::Out { token, sender, amt, trusted_dest: true, data: false, gas: 0, auth: true, gas_tok: 2 });
                 }
             }
         }
         for token in 0..2u8 {
-            v.push(Act::Out { token, sender: 0, amt: Amt::One, trusted_dest: false, data: false, gas: 0, auth: true });
-            v.push(Act::Out { token, sender: 0, amt: Amt::One, trusted_dest: true, data: true, gas: 0, auth: true });
+            v.push(Act::Out { token, sender: 0, amt: Amt::One, trusted_dest: false, data: false, gas: 0, auth: true, gas_tok: 2 });
+            v.push(Act::Out { token, sender: 0, amt: Amt::One, trusted_dest: true, data: true, gas: 0, auth: true, gas_tok: 2 });
             for gas in 1..4u8 {
-                v.push(Act::Out { token, sender: 0, amt: Amt::One, trusted_dest: true, data: false, gas, auth: true });
+                v.push(Act::Out { token, sender: 0, amt: Amt::One, trusted_dest: true, data: false, gas, auth: true, gas_tok: 2 });
             }
-            v.push(Act::Out { token, sender: 0, amt: Amt::One, trusted_dest: true, data: false, gas: 0, auth: false });
+            v.push(Act::Out { token, sender: 0, amt: Amt::One, trusted_dest: true, data: false, gas: 0, auth: false, gas_tok: 2 });
+        }
+        // the gas is paid in the transferred token itself, or in the other ITS token
+        for (token, gas_tok) in [(0u8, 0u8), (1, 1), (0, 1), (1, 0)] {
+            for amt in [Amt::One, Amt::All] {
+                v.push(Act::Out { token, sender: 0, amt, trusted_dest: true, data: false, gas: 0, auth: true, gas_tok });
+            }
         }
         if m.inbound < if self.thorough { 4 } else { 3 } {
             for token in 0..2u8 {
@@ -201,12 +208,14 @@ impl Scenario for C05 {
                 out.expect(c.ok == (m.trusted != set), "trust.outcome", || format!("{:?}: ok={}", a, c.ok));
                 if c.ok { m.trusted = set; }
             }
-            Act::Out { token, sender, amt, trusted_dest, data, gas, auth } => {
+            Act::Out { token, sender, amt, trusted_dest, data, gas, auth, gas_tok } => {
                 out.kind = "outbound";
                 let (tid, registered, tix) = match token { 0 => (ctx.t1_id, m.t1, 0usize), 1 => (ctx.t2_id, m.t2, 1), _ => (UNKNOWN, false, 0) };
                 let bal = if *token < 2 { m.bal[tix][*sender] } else { 0 };
                 let x = match amt { Amt::Neg => -1, Amt::Zero => 0, Amt::One => 1, Amt::All => bal, Amt::AllPlus1 => bal + 1, Amt::Huge => 1 };
-                let gbal = m.bal[2][*sender];
+                let gt = *gas_tok as usize;
+                let gas_registered = match gt { 0 => m.t1, _ => true };
+                let gbal = m.bal[gt][*sender];
                 let g = match gas { 0 => 1, 1 => gbal + 1, 2 => 0, _ => -1 };
                 let chain = if *trusted_dest { X } else { Z };
                 let data_bytes: Vec<u8> = if *data { b"call-data".to_vec() } else { vec![] };
@@ -222,12 +231,14 @@ impl Scenario for C05 {
                         to_val(env, &sbytes(DEST)),
                         w.v(x),
                         to_val(env, &if *data { sbytes(&data_bytes) } else { ScVal::Void }),
-                        to_val(env, &token_scval(&iw.sc(&iw.gas_token), g)),
+                        to_val(env, &token_scval(&iw.sc(self.token_addr(ctx, gt)), g)),
                     ],
                     Auth::By(&signers),
                 );
                 out.accepted = call.ok;
-                let want = *auth && registered && x > 0 && bal >= x && *trusted_dest && m.trusted && g > 0 && gbal >= g;
+                // when the gas is paid in the transferred token the sender needs amount + gas
+                let enough_gas = if gt == tix && *token < 2 { bal >= x.max(0) + g } else { gbal >= g };
+                let want = *auth && registered && gas_registered && x > 0 && bal >= x && *trusted_dest && m.trusted && g > 0 && enough_gas;
                 out.expect(call.ok == want, "outbound.outcome", || {
                     format!("{:?} (amount {}, gas {}, balance {}, gas balance {}, trusted {}): ok={} ({}), model {}", a, x, g, bal, gbal, m.trusted, call.ok, call.err, want)
                 });
@@ -237,8 +248,8 @@ impl Scenario for C05 {
                 }
                 if !want { return; }
                 if tix == 0 { m.bal[0][*sender] -= x; m.burned += x; } else { m.bal[1][*sender] -= x; m.bal[1][3] += x; m.locked += x; }
-                m.bal[2][*sender] -= g;
-                m.bal[2][4] += g;
+                m.bal[gt][*sender] -= g;
+                m.bal[gt][4] += g;
                 // the announcement
                 let payload = abi_hub(&RHub::SendToHub {
                     chain: chain.as_bytes().to_vec(),
@@ -249,7 +260,7 @@ impl Scenario for C05 {
                 if *data { sent_must.push(sbytes(&data_bytes)); }
                 let expected = vec![
                     EvPat { contract: iw.sc(&iw.its), name: "interchain_transfer_sent", must: sent_must },
-                    EvPat { contract: iw.sc(&iw.gas), name: "gas_paid", must: vec![w.sc_addr_val(&iw.its), sstr(HUB_CHAIN), sstr(HUB_ADDRESS), sbytes(&ph), w.sc_addr_val(s), token_scval(&iw.sc(&iw.gas_token), g)] },
+                    EvPat { contract: iw.sc(&iw.gas), name: "gas_paid", must: vec![w.sc_addr_val(&iw.its), sstr(HUB_CHAIN), sstr(HUB_ADDRESS), sbytes(&ph), w.sc_addr_val(s), token_scval(&iw.sc(self.token_addr(ctx, gt)), g)] },
                     EvPat { contract: iw.sc(&iw.gw), name: "contract_called", must: vec![w.sc_addr_val(&iw.its), sstr(HUB_CHAIN), sstr(HUB_ADDRESS), sbytes(&payload), sbytes(&ph)] },
                 ];
                 let r = match_events(&call.events, &expected, &["interchain_transfer_sent", "gas_paid", "contract_called", "interchain_transfer_received"]);
@@ -330,10 +341,10 @@ impl Scenario for C05 {
 fn main() {
     main_for(|tier| {
         let thorough = tier == "thorough";
-        let mut o = Opts::new(tier, if thorough { 7 } else { 5 });
+        let mut o = Opts::new(tier, if thorough { 7 } else { 4 });
         o.min_depth = 3;
         o.wall_cap_s = if thorough { 2400.0 } else { 100.0 };
-        o.rule = "two base states (nothing deployed; T1 deployed + T2 registered); all sequences over deploy, register canonical, set/remove trusted chain, outbound interchain_transfer (token T1 / T2 / unknown id; sender U1 / U2; amount -1, 0, 1, balance, balance+1; trusted / untrusted destination; with / without data; gas 1 / unaffordable / 0 / negative; authorised by the sender or by the other user) and approved inbound transfers (token T1 / T2; to a user or with data to an app; amount 1, custody, custody+1; bounded count). After every new state every balance of T1, T2 and the gas token for U1, U2, app, ITS, gas service, custody == locked - released >= 0 and supply(T1) == 20 + minted - burned are compared; every successful outbound call's three events and payload are compared with the independent ABI encoding and keccak".into();
+        o.rule = "two base states (nothing deployed; T1 deployed + T2 registered); all sequences over deploy, register canonical, set/remove trusted chain, outbound interchain_transfer (token T1 / T2 / unknown id; sender U1 / U2; amount -1, 0, 1, balance, balance+1; trusted / untrusted destination; with / without data; gas 1 / unaffordable / 0 / negative, paid in the gas token or in the transferred token itself or the other ITS token; authorised by the sender or by the other user) and approved inbound transfers (token T1 / T2; to a user or with data to an app; amount 1, custody, custody+1; bounded count). After every new state every balance of T1, T2 and the gas token for U1, U2, app, ITS, gas service, custody == locked - released >= 0 and supply(T1) == 20 + minted - burned are compared; every successful outbound call's three events and payload are compared with the independent ABI encoding and keccak".into();
         (C05 { thorough }, o)
     });
 }
